@@ -44,7 +44,11 @@ class QInteger(QToken):
 
     @staticmethod
     def parse(string: str, namespace: dict) -> QToken:
-        return QInteger(int(string))
+        try:
+            return QInteger(int(string))
+        except ValueError:
+            # str.isdigit() accepts characters int() rejects (e.g. superscripts), and int() limits the length
+            raise QueryParseException("Invalid integer literal") from None
 
     @staticmethod
     def check(string: str):
